@@ -472,6 +472,12 @@ func envelopeRetainedBytes(env *Envelope) int64 {
 }
 
 func (s *MemoryStore) dropOldestQueuedLocked() bool {
+	// The order list can hold a stale entry for an id that was deleted and
+	// later published again, so position alone does not tell age: pick the
+	// queued message with the earliest ReceivedAt (first on the list on ties).
+	found := false
+	victim := ""
+	var oldest time.Time
 	for _, id := range s.order {
 		env := s.items[id]
 		if env == nil {
@@ -480,9 +486,16 @@ func (s *MemoryStore) dropOldestQueuedLocked() bool {
 		if env.State != StateQueued {
 			continue
 		}
-		return s.evictLocked(id, memoryEvictionReasonDropOldest)
+		if !found || env.ReceivedAt.Before(oldest) {
+			found = true
+			victim = id
+			oldest = env.ReceivedAt
+		}
 	}
-	return false
+	if !found {
+		return false
+	}
+	return s.evictLocked(victim, memoryEvictionReasonDropOldest)
 }
 
 func (s *MemoryStore) maybePruneLocked(now time.Time) {
